@@ -46,3 +46,25 @@ Example C22_scripts_parse :
   (* { a; }; *)
   parse_export_list any [123; 32; 97; 59; 32; 125; 59] = Ok [Single (MExact [97])].
 Proof. vm_compute. repeat split; reflexivity. Qed.
+
+(* Printing and parsing back.  For every structured version script — any number of versions with distinct names over
+   letters, digits, '_' and '.', each optionally depending on an earlier one, with any global and local patterns over
+   the same bytes plus '*' and '?' (no "**", which the glob crate rejects) — the parser returns exactly the structure the
+   text was printed from: each name, each parent as an index, each pattern classified as exact / glob with '*' / glob
+   without '*' / match-all, in order.  (print_script writes no white space; scripts with white space and comments are
+   covered by the correspondence runs.) *)
+From WV Require Import C22.VRound.
+Theorem C22_version_script_round_trip :
+  forall glob_ok, (forall p, forallb pat_byte p = true -> nodstar p = true -> glob_ok p = true) ->
+  forall vs, wf_versions [] vs ->
+    parse_version_script glob_ok (print_script vs) = Ok (Versions (map to_version vs)).
+Proof. exact version_script_round_trip. Qed.
+Print Assumptions C22_version_script_round_trip.
+
+(* ... and for export lists (--dynamic-list): "{" patterns "};" *)
+From WV Require Import C22.VRoundExport.
+Theorem C22_export_list_round_trip :
+  forall glob_ok, (forall p, forallb pat_byte p = true -> nodstar p = true -> glob_ok p = true) ->
+  forall ps, Forall good ps -> parse_export_list glob_ok (print_export ps) = Ok (singles ps).
+Proof. exact export_list_round_trip. Qed.
+Print Assumptions C22_export_list_round_trip.
